@@ -51,7 +51,16 @@ def setup():
     here = os.path.realpath(rv.__file__)
     if not here.startswith(os.path.realpath(SRC) + os.sep):
         raise WrongSource(f"rv imported from {here}, expected under {SRC}")
-    logging.disable(logging.CRITICAL)  # rv logs a warning per odd value; not under test
+    level = os.environ.get("RVMON_RV_LOGLEVEL")
+    if level:
+        # the library's diagnostics are switched ON (and swallowed): guarded debug code runs
+        logging.disable(logging.NOTSET)
+        root = logging.getLogger()
+        root.handlers[:] = [logging.NullHandler()]
+        root.setLevel(getattr(logging, level))
+        logging.getLogger("rv").setLevel(getattr(logging, level))
+    else:
+        logging.disable(logging.CRITICAL)  # rv logs a warning per odd value; not under test
     _ready = True
 
 
